@@ -195,6 +195,17 @@ def rule_guards(P) -> RuleResult:
                  False if attr == 'pure' else NotImplemented,
                  extra_call=lambda full, f, fv, rc, a, k, b: (None if b else Sym('OVERLOAD')) if f == 'function_lookup' else
                  T('new', ('EVALUATOR',)) if fv == Sym('OVERLOAD') else 'x' if f in ('join', 'lower', 'format') else NotImplemented)
+    # the metadata accessors are rewritten into subscripts; their signature (exactly one key) is checked like any other function's
+    for special in ('meta', 'entry_meta', 'any_meta'):
+        for nargs in (0, 2):
+            handler_case(f'signature-{special}-{nargs}', f'{special}() takes exactly one key', '_function', True,
+                         f'{special}() called with {nargs} arguments (no overload matches)', f'{special}(key)',
+                         extra_attr=lambda base, attr, b, _s=special, _n=nargs: _s if (base, attr) == (NODE, 'fname') else
+                         SList([Sym(f'AST_ARG{i}') for i in range(_n if b else 1)]) if (base, attr) == (NODE, 'operands') else
+                         None if (base, attr) == (NODE, 'parseinfo') else False if attr == 'pure' else NotImplemented,
+                         extra_call=lambda full, f, fv, rc, a, k, b: (None if b else Sym('OVERLOAD')) if f == 'function_lookup' else
+                         T('new', ('EVALUATOR',)) if fv == Sym('OVERLOAD') else 'x' if f in ('join', 'lower', 'format') else
+                         T('new', (f, tuple(a))) if f in ('Function', 'Column', 'Attribute') else NotImplemented)
     CAND = Sym('CANDIDATE')
     handler_case('unknown-between', 'BETWEEN overload resolves', '_between', True, 'BETWEEN on operand types without an overload', 'BETWEEN with an overload',
                  extra_item=lambda base, idx, b: SList([CAND]) if isinstance(base, T) and base.op == 'global' and base.args[0].endswith('OPERATORS') else NotImplemented,
